@@ -1081,8 +1081,9 @@ class Engine:
 
     @staticmethod
     def _end_process_if_parallel(process: Process) -> None:
-        if process.parallel:
-            assert isinstance(process, ParallelProcess)
+        # a process marked parallel that was never wrapped (it came with
+        # a ready-made store) runs in this OS process: nothing to end
+        if process.parallel and isinstance(process, ParallelProcess):
             process.end()
 
     def end(self) -> None:
